@@ -156,6 +156,14 @@ type Decorated struct {
 // Decorate returns a copy of s with union, tags, types and harness actions;
 // prologue and epilogue are added per variant by Source.
 func Decorate(s *gram.Spec, tags Tags, shape ActionShape) *Decorated {
+	return DecorateOpt(s, tags, shape, false)
+}
+
+// DecorateOpt: with renumber, every named token is additionally re-declared
+// WITHOUT tag and with an explicit number on a later line (`%token NAME 300`),
+// after the tagged lines of all other tokens - the idiom of the repository's
+// examples (`%token <val> NUM` ... `%token NUM 100`).
+func DecorateOpt(s *gram.Spec, tags Tags, shape ActionShape, renumber bool) *Decorated {
 	if tags == nil {
 		tags = AllS(s)
 	}
@@ -185,6 +193,15 @@ func Decorate(s *gram.Spec, tags Tags, shape ActionShape) *Decorated {
 	sort.Strings(ts)
 	for _, t := range ts {
 		n.Types = append(n.Types, gram.TypeDecl{Tag: t, Names: byTag[t]})
+	}
+	if renumber {
+		k := 0
+		for _, t := range n.Tokens {
+			if !gram.IsLit(t.Name) && t.Num == 0 {
+				n.LateTokens = append(n.LateTokens, gram.TokDecl{Name: t.Name, Num: 300 + k})
+				k++
+			}
+		}
 	}
 	for i, r := range s.Rules {
 		r.Action = ActionFor(i+1, r, tags, shape)
@@ -223,13 +240,13 @@ func (d *Decorated) sortedToks() []string {
 
 func (d *Decorated) goEpilogue(pkg string, object bool) string {
 	var b strings.Builder
-	b.WriteString("\n// ---- harness-owned epilogue ----\n")
+	b.WriteString("\n// ---- harness-owned epilogue ---- (this comment contains the section mark %% on purpose)\n")
 	b.WriteString("func tokCode(ch byte) int {\n\tswitch ch {\n")
 	for _, t := range d.sortedToks() {
 		code := t
 		fmt.Fprintf(&b, "\tcase %q:\n\t\treturn %s\n", rune(d.Chars[t]), code)
 	}
-	b.WriteString("\t}\n\treturn 987654\n}\n")
+	b.WriteString("\t}\n\treturn 0 // not a token: the example lexers of the repository answer 0\n}\n")
 	b.WriteString(`
 func GetToken(input string, valTy *ValType, pos *int) int {
 	rt.Fetch()
@@ -329,7 +346,7 @@ const tsPrologue = `"use strict";
 
 func (d *Decorated) tsEpilogue() string {
 	var b strings.Builder
-	b.WriteString("\n// ---- harness-owned epilogue ----\n")
+	b.WriteString("\n// ---- harness-owned epilogue ---- (this comment contains the section mark %% on purpose)\n")
 	b.WriteString("function tokCode(ch :number) :number {\n\tswitch (ch) {\n")
 	for _, t := range d.sortedToks() {
 		code := t
@@ -338,7 +355,7 @@ func (d *Decorated) tsEpilogue() string {
 		}
 		fmt.Fprintf(&b, "\tcase %d: return %s;\n", d.Chars[t], code)
 	}
-	b.WriteString("\t}\n\treturn 987654;\n}\n")
+	b.WriteString("\t}\n\treturn 0; // not a token\n}\n")
 	b.WriteString(`
 function GetToken(input :string, model:{ValType :ValType, pos :number}) :number {
 	RT.fetch();
